@@ -166,7 +166,13 @@ WITNESSES = [
     ("same_file_half", [0, 1] + [0, 0, 0, 0, 1, 1, 1, 1, 1]),
     ("same_file_orphan", [0, 1] + [0, 0, 0, 0, 1, 1, 1, 0, 0, 0]),
     ("same_file_sequential", [0, 1] + [0] * 9 + [1] * 9),
+    # proved harmless overlaps, given as policies "(t, op): t runs until it is about to do op":
+    # both find no side file; A creates; B decodes the document up to its own creation; A finishes; B finishes
+    ("same_file_overlap_ok", [0, 1, (0, "isfile"), 0, (1, "isfile"), 1, (0, "create"), 0, (1, "create"), (0, None), (1, None)]),
+    ("same_file_sequential", [0, 1, (0, None), (1, None)]),
 ]
+# schedules on which the theorem says both calls return the lone result: a failure there is not D-C20a
+SAFE = {"same_file_sequential", "same_file_overlap_ok"}
 
 
 def same_file(run, sc, i, schedule=None, name=None):
@@ -179,12 +185,12 @@ def same_file(run, sc, i, schedule=None, name=None):
         schedule = [rng.randrange(2) for _ in range(60 if fine else 22)]
     # a model schedule counts "encode"/"decode"; the real one has a stop for each of them too, so they map one to one
     r = run_threads(run, sc, "s%d" % i, files, inputs, schedule, clear_cache=False, fine=fine)
-    case = {"kind": "same file", "witness": name, "files": {"s.xml": [800 + i, []]}, "executed": [[t, op] for t, op in r["executed"]]}
+    case = {"kind": "same file", "witness": name, "files": {"s.xml": [800 + i, []]}, "executed": [[t, op] for t, op in r["executed"]], "policy": schedule if name else None}
     run.case({"same": True, "executed": case["executed"]}, nontrivial=interleaved(r["executed"]), tag="threads:same" + (":witness" if name else ""))
     lone = lone_results(sc, files)["s.xml"]
     bad = [t for t in range(2) if r["outcomes"][t] != lone[0] or r["fps"][t] != lone[1]]
     if bad or r["after"] != r["before"]:
-        if run.known("D-C20a"):
+        if name not in SAFE and run.known("D-C20a"):
             run.count("known:D-C20a")
         else:
             run.violation(case, {"what": "two parses of one file: thread(s) %r do not return the lone result: %r; directory %r" % (bad, r["outcomes"], sorted(r["after"]))})
